@@ -293,6 +293,12 @@ def _class_rules(ctx, repo, ci: ClassInfo):
                     if isinstance(x, ast.BoolOp) and any(isinstance(y, ast.Constant) for y in x.values):
                         lossy = x
                 if lossy is None:
+                    reord = _reorders_sequence(repo, ci, v)
+                    if reord is not None:
+                        ctx.ob('C11.d3', f'{ci.qual}:{k.value}', False,
+                               f'JSON value of `{k.value}` is `{ast.unparse(v)[:80]}`: {reord}', ci.mod.rel, v.lineno, construct=f'{ci.qual}:{k.value}')
+                        continue
+                if lossy is None:
                     half = _half_of_mapping(repo, ci, v, dn)
                     if half is not None:
                         ctx.ob('C11.d3', f'{ci.qual}:{k.value}', False,
@@ -350,6 +356,26 @@ def _is_mapping_field(repo, ci, attr):
                 cands.append(ast.unparse(a.annotation))
     return any(t.lstrip('cirq.').startswith(('dict[', 'Mapping[', 'Dict[', 'collections.abc.Mapping[', 'frozendict')) or 'Mapping[' in t.split('|')[0] or t.split('|')[0].strip().startswith('dict[')
                for t in cands)
+
+
+def _reorders_sequence(repo, ci, v):
+    """the written value is sorted(self.f) / set(self.f) of a field that equality compares as the sequence it is (order and multiplicity matter)"""
+    if not (isinstance(v, ast.Call) and isinstance(v.func, ast.Name) and v.func.id in ('sorted', 'set', 'frozenset') and v.args and is_self_attr(v.args[0])):
+        return None
+    f = v.args[0].attr
+    for c in repo.mro(ci):
+        ve = c.methods.get('_value_equality_values_')
+        if ve is None:
+            continue
+        for r in ast.walk(ve):
+            if isinstance(r, ast.Return) and r.value is not None:
+                elems = r.value.elts if isinstance(r.value, ast.Tuple) else [r.value]
+                for e in elems:
+                    if is_self_attr(e) and e.attr in (f, '_' + f.lstrip('_'), f.lstrip('_')):
+                        return (f'{v.func.id}() changes the order of `{f}`, which equality compares element by element: the value read back is not equal to the one '
+                                'written unless the sequence happened to be sorted')
+        break
+    return None
 
 
 def _half_of_mapping(repo, ci, v, dict_node):
